@@ -177,6 +177,12 @@ func checkNAParams(what string, f *sipsp.PFromBody, buf []byte) string {
 		if i := strings.IndexByte(s, '.'); i >= 0 {
 			ip, fp, hasDot = s[:i], s[i+1:], true
 		}
+		// a q value that is no number at all (a sign, a letter, two dots ...) cannot yield a q: the
+		// forms ".5" / "5." with an empty part are left alone
+		numeric := func(x string) bool { return x == "" || allDigits([]byte(x)) }
+		if !strings.ContainsAny(s, "\"\\ \t\r\n") && (!numeric(ip) || !numeric(fp)) && f.Q != 0 {
+			return fmt.Sprintf("%s q=%s is not a number but Q=%d is reported", what, s, f.Q)
+		}
 		if allDigits([]byte(ip)) && (!hasDot || fp == "" || allDigits([]byte(fp))) {
 			iv := bigOf([]byte(ip))
 			legal := len(fp) <= 3
@@ -280,11 +286,7 @@ func C10Msg(m *sipsp.PSIPMsg, buf []byte, err sipsp.ErrorHdr, params bool) strin
 		f *sipsp.PFromBody
 	}{{"From", &pv.From}, {"To", &pv.To}} {
 		if x.f.Parsed() {
-			if params {
-				if d := checkNAParams(x.n, x.f, buf); d != "" {
-					return d
-				}
-			}
+			// (expires / q are Contact parameters: nothing is asserted about them on From / To)
 			if d := checkURIPort(x.n, x.f.URI.Get(buf)); d != "" {
 				return d
 			}
@@ -327,7 +329,7 @@ func C10Sub(cfg sut.Cfg, d sut.Driver, buf []byte, err sipsp.ErrorHdr, params bo
 		}
 	case *sut.NameAddrD:
 		if err == 0 || err == sipsp.ErrHdrMoreValues {
-			if params {
+			if params && (cfg.Kind == "onecontact" || (cfg.Kind == "nameaddr" && sipsp.HdrT(cfg.HType) == sipsp.HdrContact)) {
 				if s := checkNAParams("value", &x.F, buf); s != "" {
 					return s
 				}
@@ -346,6 +348,29 @@ func C10Sub(cfg sut.Cfg, d sut.Driver, buf []byte, err sipsp.ErrorHdr, params bo
 				return fmt.Sprintf("Status=%d but the digits are %q", x.FL.Status, t)
 			}
 		}
+	}
+	return ""
+}
+
+// C10Summary: the expires summary accessor reports a number too; at every call (also while
+// suspended or after a rejection) it must be what the values it summarises say: available only when
+// a Contact value or an Expires header has been parsed, and then the larger of the two.
+func C10Summary(pv *sipsp.PHdrVals) string {
+	mx, ok := pv.MaxExpires()
+	var want uint32
+	wok := false
+	if pv.Contacts.Parsed() {
+		want, wok = pv.Contacts.MaxExpires, true
+	}
+	if pv.Expires.Parsed() {
+		if !wok || pv.Expires.UIVal > want {
+			want = pv.Expires.UIVal
+		}
+		wok = true
+	}
+	if ok != wok || (ok && mx != want) {
+		return fmt.Sprintf("MaxExpires() = (%d,%v) but the parsed values give (%d,%v) [Contacts.Parsed=%v MaxExpires=%d, Expires.Parsed=%v UIVal=%d]",
+			mx, ok, want, wok, pv.Contacts.Parsed(), pv.Contacts.MaxExpires, pv.Expires.Parsed(), pv.Expires.UIVal)
 	}
 	return ""
 }
